@@ -28,17 +28,31 @@ def tryMessage (S : Schema) (P : IR.Prog) (pkt : String) (vs : List Val) : List 
          ("expected", Load.bytesJ (want.drop 2)), ("got", match got with | some g => Load.bytesJ (g.drop 2) | none => Json.null)]
       else
         let sfx : Bytes := [0xAB, 0xCD]
-        match IR.decStruct P (fuelFor vs) pkt (want.drop 2 ++ sfx) with
-        | none => [("fail", "dec"), ("registry", rn), ("packet", pkt), ("message", Load.valToJ (.struct vs)),
-                   ("bytes", Load.bytesJ (want.drop 2)), ("got", Json.null)]
-        | some (vs', rest) =>
-          -- re-encode what was decoded: must reproduce the bytes and leave the suffix
-          let again := IR.encStruct P reg (fuelFor vs) pkt vs' pre
-          if rest ≠ sfx || again ≠ some want then
-            [("fail", "dec"), ("registry", rn), ("packet", pkt), ("message", Load.valToJ (.struct vs)),
-             ("bytes", Load.bytesJ (want.drop 2)), ("decoded", Load.valToJ (.struct vs')), ("rest", Load.bytesJ rest),
-             ("reencoded", match again with | some g => Load.bytesJ (g.drop 2) | none => Json.null)]
-          else acc) []
+        let bytes := want.drop 2
+        let spec := Wire.dec S (fuelFor vs) pkt (bytes ++ sfx)
+        let got := IR.decStruct P (fuelFor vs) pkt (bytes ++ sfx)
+        let same := match spec, got with
+          | some (a, ra), some (b, rb) => beqList a b && ra == rb
+          | none, _ => true       -- the declared decoder does not read it: no claim
+          | some _, none => false
+        if !same then
+          [("fail", "dec"), ("registry", rn), ("packet", pkt), ("message", Load.valToJ (.struct vs)),
+           ("bytes", Load.bytesJ bytes),
+           ("declared", match spec with | some (a, ra) => Json.arr #[Load.valToJ (.struct a), Load.bytesJ ra] | none => Json.null),
+           ("emitted", match got with | some (a, ra) => Json.arr #[Load.valToJ (.struct a), Load.bytesJ ra] | none => Json.null)]
+        else
+          -- the specification's own round trip on this message (reported separately: a spec/value-domain matter)
+          match spec with
+          | some (vs', rest) =>
+            if rest ≠ sfx || Wire.enc S reg pkt vs' pre ≠ some want then
+              [("fail", "spec-roundtrip"), ("registry", rn), ("packet", pkt), ("message", Load.valToJ (.struct vs)),
+               ("bytes", Load.bytesJ bytes), ("decoded", Load.valToJ (.struct vs')), ("rest", Load.bytesJ rest)]
+            else acc
+          | none =>
+            [("fail", "spec-roundtrip"), ("registry", rn), ("packet", pkt), ("message", Load.valToJ (.struct vs)),
+             ("bytes", Load.bytesJ bytes), ("decoded", Json.null)]
+    ) []
+
 
 def handle (req : Json) : Json :=
   let op := (req.getObjValAs? String "op").toOption.getD ""
